@@ -9,7 +9,7 @@ use serde::{Deserialize, Serialize};
 pub const INFO: PropInfo = PropInfo {
     id: "C18",
     level: "exploration",
-    rule: "cases = scripts of 3-10 items mixing plain probes, alias definitions used on later lines / on the same line, unalias, `read` consuming the following line(s) as data, multi-line compound commands, here-documents, function definitions, line continuations, eval of multi-line text, a sourced multi-line file, `pos` probes, comments/blank lines, comments holding arbitrary bytes (valid multi-byte characters, stray lead/continuation bytes, truncated sequences just before the newline), and optionally a syntax error planted at a generated item; feeding mode in {-c string, script file, stdin = regular file, stdin = pipe written by a helper process in generated chunk sizes under a generated schedule}. Oracle: reference line-at-a-time interpreter => exact probe trace (ids, $?, values set by read), here-document data, final status class; identical across feeding modes and chunkings; data lines taken by `read` are not executed and the line after them is; with a syntax error every earlier command has run, none after, status non-zero; for seekable stdin the offset of fd 0 observed by `pos` equals the end of the line containing it; fd 0 is in blocking mode whenever a command runs, also when the pipe was inherited with O_NONBLOCK. Non-trivial = the script has a read followed by data, or an alias defined and used on consecutive lines, or a syntax error with >=1 command before it, or runs under pipe mode with >1 chunk; distinct by serialised case.",
+    rule: "cases = scripts of 3-10 items mixing plain probes, alias definitions used on later lines / on the same line, unalias, `read` consuming the following line(s) as data, multi-line compound commands, here-documents, function definitions, line continuations, eval of multi-line text, a sourced multi-line file, `pos` probes, comments/blank lines, a command followed by `;` and an alias that expands to a comment or to nothing, `read` of a line ending in an invalid UTF-8 sequence, comments holding arbitrary bytes (valid multi-byte characters, stray lead/continuation bytes, truncated sequences just before the newline), and optionally a syntax error planted at a generated item; feeding mode in {-c string, script file, stdin = regular file, stdin = pipe written by a helper process in generated chunk sizes under a generated schedule}. Oracle: reference line-at-a-time interpreter => exact probe trace (ids, $?, values set by read), here-document data, final status class; identical across feeding modes and chunkings; data lines taken by `read` are not executed and the line after them is; with a syntax error every earlier command has run, none after, status non-zero; for seekable stdin the offset of fd 0 observed by `pos` equals the end of the line containing it; fd 0 is in blocking mode whenever a command runs, also when the pipe was inherited with O_NONBLOCK. Non-trivial = the script has a read followed by data, or an alias defined and used on consecutive lines, or a syntax error with >=1 command before it, or runs under pipe mode with >1 chunk; distinct by serialised case.",
     assumptions: &[
         "a syntax error is planted only on a line of its own (POSIX parses whole lines; what runs from the same line is unspecified)",
         "alias definitions appear only at top level (inside a compound command they cannot affect that command, which is already parsed)",
@@ -55,6 +55,13 @@ pub enum Item {
     /// attach: 0 = line of its own, 1 = after `mark N`, 2 = after `pos TAG`, 3 = after `read rA`
     /// (stdin modes; followed by a data line)
     RawComment { bytes: Vec<u8>, attach: u8 },
+    /// a command, `;`, then an alias that expands to a comment (`zc` = `#`) or to nothing (`ze`):
+    /// 0 `pos P; zc words`, 1 `pos P; ze`, 2 `read rA; zc words` + data line (stdin modes),
+    /// 3 `mark N; zc mark 9999`
+    SemiAlias(u8),
+    /// `read rC` whose data line ends in an invalid / truncated UTF-8 sequence (stdin modes): the
+    /// built-in fails, and must not have consumed anything beyond that line
+    ReadBad(u8),
 }
 
 /// Raw byte b >= 0x80 is carried through the script text as the private-use character U+E000+b.
@@ -140,6 +147,10 @@ fn build(c: &InputCase, stdin_mode: bool) -> Built {
     let mut vars: std::collections::BTreeMap<String, String> = Default::default();
     let mut nsink = 0;
     let err_pos = c.error.map(|(p, k)| (p as usize % (c.items.len() + 1), k));
+    let uses_semi_alias = c.items.iter().any(|i| matches!(i, Item::SemiAlias(_)));
+    if uses_semi_alias {
+        text.push_str("alias zc='#' ze=''\n");
+    }
     let mut mark = |trace: &mut Vec<(Vec<String>, Sym)>, status: &mut Sym, next_mark: &mut u32, extra: Vec<String>| -> u32 {
         let id = *next_mark;
         *next_mark += 1;
@@ -389,6 +400,60 @@ fn build(c: &InputCase, stdin_mode: bool) -> Built {
                     classes.push("non-ascii-bytes-in-comment");
                 }
             }
+            Item::SemiAlias(kind) => {
+                let kind = if !stdin_mode && *kind % 4 == 2 { 3 } else { *kind % 4 };
+                match kind {
+                    0 | 1 => {
+                        let tag = format!("p{i}");
+                        text.push_str(&format!("pos {tag}; {}\n", if kind == 0 { "zc some words" } else { "ze" }));
+                        if live {
+                            let off = if stdin_mode { fed_bytes(&text, true).len().to_string() } else { "*".to_string() };
+                            trace.push((vec!["pos".into(), off, tag, "nb=0".into()], status));
+                        }
+                    }
+                    2 => {
+                        text.push_str(&format!("read rA; zc note\nsemi{i}\n"));
+                        if live {
+                            has_read = true;
+                            classes.push("read-consumes-next-line");
+                            vars.insert("rA".into(), format!("semi{i}"));
+                            status = Sym::Known(0);
+                        }
+                    }
+                    _ => {
+                        let id = next_mark;
+                        text.push_str(&format!("mark {id}; zc mark 9999\n"));
+                        if live {
+                            mark(&mut trace, &mut status, &mut next_mark, vec![]);
+                        } else {
+                            next_mark += 1;
+                        }
+                    }
+                }
+                if live {
+                    classes.push("alias-to-comment-after-semicolon");
+                }
+            }
+            Item::ReadBad(k) => {
+                if !stdin_mode {
+                    let id = next_mark;
+                    text.push_str(&format!("mark {id}\n"));
+                    if live {
+                        mark(&mut trace, &mut status, &mut next_mark, vec![]);
+                    } else {
+                        next_mark += 1;
+                    }
+                    continue;
+                }
+                let tail: &[u8] = [&[0xE9u8][..], &[0xF0, 0x9F], &[0xC3], &[0xE2, 0x82], &[0xF0, 0x9F, 0x98]][*k as usize % 5];
+                let tail: String = tail.iter().map(|b| raw_char(*b)).collect();
+                text.push_str(&format!("read rC\ncaf{tail}\n"));
+                if live {
+                    has_read = true;
+                    classes.push("read-of-invalid-utf8-line");
+                    status = Sym::NonZero;
+                }
+            }
             Item::Blank => text.push_str("\n"),
             Item::Pos => {
                 let tag = format!("p{i}");
@@ -557,6 +622,8 @@ fn arb_item() -> impl Strategy<Value = Item> {
             .prop_map(|(bytes, attach)| Item::RawComment { bytes, attach }),
         1 => Just(Item::Blank),
         3 => Just(Item::Pos),
+        2 => (0u8..4).prop_map(Item::SemiAlias),
+        2 => (0u8..5).prop_map(Item::ReadBad),
     ]
 }
 
